@@ -140,15 +140,19 @@ def run(db, chk) -> None:
            found=[" ".join(ast.unparse(m.parent.get(id(n), n)).split())[:100] for n in frozen] or "none", accepted="weights are read through the 'weight' edge attribute only",
            why="a what-if re-weighting changes the graph attribute, not the CPEdge objects: a consistency check against e.weight raises (or filters) exactly when the documented re-weighting was used")
     # ---------------------------------------------------------------- R2 derivation of the sets
+    sem = _derivation_eval(db, chk, m, where)          # decided on the final state of an abstract run; the shape rules below are diagnostics and defer when they do not recognise the code
     ev = [val for t, val, s in H.assignments(f_in) if H.is_self_attr(t, "critical_path_events_set")]
     okev = len(ev) == 1 and isinstance(ev[0], ast.SetComp) and len(ev[0].generators) == 1 and isinstance(ev[0].generators[0].target, ast.Name) \
         and ast.unparse(ev[0].elt).replace(" ", "") == f"self.node_list[{ev[0].generators[0].target.id}].ev_idx" \
         and H.is_self_attr(ev[0].generators[0].iter, "critical_path_nodes") and not ev[0].generators[0].ifs
-    chk.ob("C09.R2-derivation", "critical events = the events of ALL nodes of the path", okev, where, found=[ast.unparse(e) for e in ev], accepted="{self.node_list[nid].ev_idx for nid in self.critical_path_nodes}")
+    recognised_ev = len(ev) == 1 and isinstance(ev[0], ast.SetComp)
+    if recognised_ev or sem is None:
+      chk.ob("C09.R2-derivation", "critical events = the events of ALL nodes of the path", okev if recognised_ev else None, where, found=[ast.unparse(e) for e in ev], accepted="{self.node_list[nid].ev_idx for nid in self.critical_path_nodes}")
     # consecutive pairs
     form = _pair_form(f_in, [g_ for g_ in H.with_private_callees(m, f) if g_ is not f])
-    chk.ob("C09.R2-derivation", "critical edges = the graph edges between CONSECUTIVE nodes of the path, each read from 'object'", form["ok"], where, found=form["found"],
-           accepted="u = first; for each next v: add(self.edges[u, v]['object']); u = v   |   for u, v in zip(path, path[1:])")
+    if not (form["ok"] is None and sem is not None):
+        chk.ob("C09.R2-derivation", "critical edges = the graph edges between CONSECUTIVE nodes of the path, each read from 'object'", form["ok"], where, found=form["found"],
+               accepted="u = first; for each next v: add(self.edges[u, v]['object']); u = v   |   for u, v in zip(path, path[1:])")
     check_reset_before_accumulate(db, chk, "C09.R3-reset-before-accumulate")
     # ---------------------------------------------------------------- R5 the path is recomputed on every call
     guards = []
@@ -186,6 +190,72 @@ class _Prefixed:
 
     def __getattr__(self, n):
         return getattr(self.chk, n)
+
+
+def _derivation_eval(db, chk, m, where):
+    """critical_path() run on a small concrete graph (path 0-1-2-3 handed out by the hooked longest-path search, a chord 0->2 between two path nodes, stale members
+    from an earlier computation): afterwards the three result members are the path, the events of ALL its nodes, and exactly the edge objects of its CONSECUTIVE pairs."""
+    from ..core.interp import Interp
+    from ..core.values import Obj, PyTuple, to_term
+    EDGES = [(0, 1), (1, 2), (0, 2), (2, 3)]
+    PATH = [0, 1, 2, 3]
+    state = {}
+
+    def hook(I, name, pos, kw, node):
+        last = name.split(".")[-1]
+        if last == "_validate_graph":
+            return True
+        if last == "dag_longest_path":
+            return list(PATH)
+        if last in ("dag_longest_path_length", "path_weight"):
+            return 15
+        if name in ("self.out_edges", "self.in_edges", "self.edges", "self.edges.data"):          # networkx' edge views over the same concrete graph
+            nb = pos[0] if pos and not isinstance(pos[0], (str, bool)) else kw.get("nbunch")
+            key = kw.get("data", pos[1] if len(pos) > 1 else (pos[0] if pos and isinstance(pos[0], (str, bool)) else None))
+            nodes = None if nb is None else set(I._concrete_seq(nb) or [nb])
+            out = []
+            for (u, v) in EDGES:
+                if nodes is not None and (v if name == "self.in_edges" else u) not in nodes:
+                    continue
+                d = state["data"][(u, v)]
+                out.append(PyTuple([u, v] + ([d] if key is True else [d.get(key, kw.get("default"))] if isinstance(key, str) else [])))
+            return out
+        if name == "self.has_edge" and len(pos) == 2:
+            return (pos[0], pos[1]) in EDGES
+        if name == "self.get_edge_data" and len(pos) >= 2:
+            return state["data"].get((pos[0], pos[1]))
+        if name in ("self.successors", "self.neighbors") and len(pos) == 1:
+            return [v for (u, v) in EDGES if u == pos[0]]
+        if name == "self.predecessors" and len(pos) == 1:
+            return [u for (u, v) in EDGES if v == pos[0]]
+        return NotImplemented
+
+    def args(I):
+        state["data"] = {e: {"object": Obj(f"E{e[0]}{e[1]}", attrs={"begin": e[0], "end": e[1], "weight": 5, "type": ("enum", "CPEdgeType", "DEPENDENCY")}), "weight": 5} for e in EDGES}
+        edges = {to_term(PyTuple(list(e))): d for e, d in state["data"].items()}
+        nl = [Obj(f"n{i}", attrs={"ev_idx": (i + 1) // 2, "idx": i, "is_start": i % 2 == 1}) for i in range(4)]          # (event 0 - the first event of the file - is on the path)
+        return {"self": Obj("self", cls=(m, "CPGraph"), attrs={"edges": edges, "node_list": nl, "critical_path_nodes": [7], "critical_path_events_set": {99}, "critical_path_edges_set": {"STALE"}})}
+    try:
+        runs = [r for r in Interp(db, call_hook=hook).explore(f"{CP}:CPGraph.critical_path", args) if r.raised is None and r.ret is True]
+    except AnalysisError:
+        runs = []
+    chk.analysed_add("functions", f"{CP}:CPGraph.critical_path (abstract run)")
+    if len(runs) != 1:
+        chk.ob("C09.R2-derivation", "[abstract run] critical_path() evaluated on a small concrete graph", None, where, found=f"{len(runs)} successful path(s)")
+        return None
+    so = runs[0].env["self"]
+    nodes, evs, eds = so.attrs.get("critical_path_nodes"), so.attrs.get("critical_path_events_set"), so.attrs.get("critical_path_edges_set")
+    concrete = isinstance(nodes, list) and isinstance(evs, (set, list)) and isinstance(eds, (set, list)) and all(isinstance(x, int) for x in nodes) and all(isinstance(x, int) for x in evs) \
+        and all(isinstance(x, Obj) or x == "STALE" for x in eds)
+    if not concrete:
+        chk.ob("C09.R2-derivation", "[abstract run] the result members are concrete after the run", None, where, found={"nodes": str(nodes)[:60], "events": str(evs)[:60], "edges": str(eds)[:80]})
+        return None
+    got_e = sorted(x.name if isinstance(x, Obj) else str(x) for x in eds)
+    ok = nodes == PATH and set(evs) == {0, 1, 2} and got_e == ["E01", "E12", "E23"] and len(list(eds)) == 3
+    chk.ob("C09.R2-derivation", "[abstract run] after critical_path(): nodes = the path, events = the events of ALL its nodes, edges = exactly the edge objects of its CONSECUTIVE pairs (stale members gone, no chord)",
+           ok, where, found={"nodes": nodes, "events": sorted(evs), "edges": got_e}, accepted={"nodes": PATH, "events": [0, 1, 2], "edges": ["E01", "E12", "E23"]},
+           why="the edges of the induced subgraph contain chords between path nodes that the path does not use; a set that is not rebuilt keeps the previous path")
+    return ok
 
 
 def _pair_form(f, helpers=None):
